@@ -155,13 +155,20 @@ func init() {
 		Level:   "proof",
 		Prepare: func(e *Engine) { e.assumeKindInv = true },
 		Opts: func(e *Engine, key string) VerifyOpts {
+			if key == "compiler.(*DisjunctionToType).processDisjunction" {
+				// only its postcondition is claimed: the preconditions of the visitor's object registry and of
+				// Type.AsScalar at its call sites depend on state behind callbacks with unknown effects
+				return VerifyOpts{OnlyKinds: []string{"post", "cover", "call"}}
+			}
 			return VerifyOpts{OnlyKinds: []string{"pre", "post", "frame", "inv-init", "inv-pres", "cover", "call"}}
 		},
 		Extra: func(e *Engine, tier string) []*FuncResult { return []*FuncResult{e.chainResult()} },
 		Assumptions: []string{
 			"scope (1), chain level: for each language the rewrite that establishes each normal form named by the property is in Language.CompilerPasses(), after the passes that can create the construct it removes, and (Go, Java) nothing that can create a union follows DisjunctionToType; the chains are read from go/ssa, the obligations are discharged by the generator (not SMT)",
 			"scope (2), pass level: local postconditions of not_required_as_nullable (a non-required field comes back nullable), disjunction_with_null_to_optional (a two-branch T|null union comes back as T made nullable, other unions unchanged), prefix_enum_values (types and values of members kept), with Types.HasNullType / NonNullTypes under contract",
-			"NOT proved: that each pass reaches every nested occurrence (arrays, maps, union branches, struct fields): the recursive traversal of the shared Visitor is assumed; deep `anywhere in the IR` normal forms need recursive predicates over type trees, which this engine does not have; DisjunctionToType, AnonymousStructsToNamed, AnonymousEnumToExplicitType, the identifier rules of enum member names (string theory), and objects created by earlier passes are not under contract",
+			"scope (3): the shared Visitor that carries every pass to the nested occurrences (arrays, maps, union and intersection branches, struct fields) is under contract from VisitType down (dispatch by kind, delegation to the registered callback, descent into every nested type, results stored in place); VisitSchema / VisitSchemas are assumed",
+			"scope (4): disjunction_to_type returns a leaf (a scalar or a reference) for every union it is given, so nothing nested survives in the replacement; only this postcondition of processDisjunction is claimed (the preconditions of the visitor's object registry and of Type.AsScalar at its call sites are not established here)",
+			"NOT proved: the deep `anywhere in the IR` normal forms as such (they need recursive predicates over type trees and the induction over the tree, which stay a paper argument over the per-method contracts); AnonymousStructsToNamed, AnonymousEnumToExplicitType, the identifier rules of enum member names (string theory), and objects created by earlier passes are not under contract",
 		},
 	}
 	propSpecs["C10"] = &PropSpec{
